@@ -59,7 +59,13 @@ fn merge_bit_string_literals(
             // Pattern: AbstractLiteral Identifier StringLiteral (e.g., 10ub"0101")
             TokenKind::AbstractLiteral => {
                 if let (Some((ident, _)), Some((string, _))) = (tokens.front(), tokens.get(1)) {
-                    if ident.kind() == TokenKind::Identifier
+                    // The length of a bit string literal is an integer (LRM 15.8)
+                    if tok
+                        .text()
+                        .as_bytes()
+                        .iter()
+                        .all(|byte| byte.is_ascii_digit() || *byte == b'_')
+                        && ident.kind() == TokenKind::Identifier
                         && ident.leading_trivia().is_empty()
                         && is_base_specifier(ident.text())
                         && string.kind() == TokenKind::StringLiteral
